@@ -289,9 +289,11 @@ def run_cases(ctx, exe, states, label):
             ok = False
         if lay["edit"] is not None:
             eo = out[lay["edit"]:lay["edit"] + 6]
-            if eo[0:5] != ["ok"] * 5:
+            if eo[3] == "noid":
+                pass        # the edited body was fused away: there is no compiled parameter to edit at runtime
+            elif eo[0:5] != ["ok"] * 5:
                 raise Machinery("runtime-edit route failed: %r" % eo)
-            if eo[5] != "eq":
+            elif eo[5] != "eq":
                 ctx.violation("rw:EditMass:setconst:%s" % (eo[5].split()[1] if len(eo[5].split()) > 1 else "?"),
                               "mj_setConst after a runtime mass edit differs from recompiling the edited document: %s\n%s" % (
                                   eo[5][:200], render(cur)), rep)
@@ -308,6 +310,7 @@ def rewrite_states(cfg, timeout):
         sts = list(states())
     finally:
         cleanup()
+    sts.sort(key=lambda st: repr((tlc.to_py(st["base"]), tlc.to_py(st["cur"]), list(st["log"]))))    # TLC's dump order varies
     return res, sts
 
 
@@ -322,8 +325,9 @@ def run(ctx):
     ctx.tlc_ok(res, "Rewrites_Neg", allow_violation=True)
     ctx.control("TLC refutes SameMeaning for a frame wrapping that does not invert the frame",
                 res.violation is not None and "SameMeaning" in res.violation)
-    cfgs = ["Rewrites_Spell.cfg", "Rewrites_MC.cfg", "Rewrites_Repl.cfg"] if ctx.quick else \
-           ["Rewrites_Spell.cfg", "Rewrites_MC.cfg", "Rewrites_Repl.cfg", "Rewrites_Deep.cfg", "Rewrites_Two.cfg", "Rewrites_SpellDeep.cfg"]
+    cfgs = ["Rewrites_SpellQ.cfg", "Rewrites_MCQ.cfg", "Rewrites_ReplQ.cfg"] if ctx.quick else \
+           ["Rewrites_Spell.cfg", "Rewrites_MC.cfg", "Rewrites_Repl.cfg", "Rewrites_Repl2.cfg", "Rewrites_Deep.cfg", "Rewrites_Two.cfg",
+            "Rewrites_SpellDeep.cfg"]
     n = 0
     for cfg in cfgs:
         res, sts = rewrite_states(cfg, to)
